@@ -550,7 +550,8 @@ def write_png(matrix, matrix_size, out, colormap, scale=1, border=None, compress
         palette.sort(key=len, reverse=True)  # RGBA colors first
         if is_transparent:
             png_trans_idx = 0
-            rgb_values = _NAME2RGB.values() if len(palette[1]) == 3 else ((*clr, 0) for clr in _NAME2RGB.values())
+            rgb_values = _NAME2RGB.values() if len(palette) < 2 or len(palette[1]) == 3 \
+                else ((*clr, 0) for clr in _NAME2RGB.values())
             # Choose a random color which becomes transparent.
             transparent_color = next(clr for clr in rgb_values if clr not in palette)
             palette[0] = transparent_color
